@@ -15,6 +15,7 @@ import (
 
 	"github.com/alephium/wormhole-fork/node/pkg/vaa"
 	"github.com/alephium/wormhole-fork/node/verifh/ev"
+	"github.com/alephium/wormhole-fork/node/verifh/vaacoop"
 	"github.com/alephium/wormhole-fork/node/verifh/mc"
 )
 
@@ -360,6 +361,9 @@ func main() {
 
 	// ---- (a') several VAAs in flight
 	inFlight()
+
+	// ---- (a'') concurrent callers under every schedule with <= 2 (thorough 3) preemptions
+	nontriv += int64(vaacoop.Explore(r, r.Pick(2, 3), r.Thorough()))
 
 	// ---- (b) byte space
 	// every byte string of length 0..2
